@@ -94,6 +94,9 @@ def run_case(scn):
     t = record.run_solver(scn, listener=True, on_event=on_event, after_step=after_step, problem=prob)
     m = mon()
     viol = list(m.viol)
+    if t.fp_exhausted:
+        return {"violations": viol, "obs": {"fp_domain_exhausted": 1, "items_checked": m.items_checked, "moments": sum(m.moments.values())},
+                "skip": "fp-domain-exhausted"}
     for b in _insert_stats["bad"]:
         viol.append(dict(b, mech="searchinfo:insert-postcondition"))
     if t.swallowed or t.aborted:
